@@ -49,8 +49,51 @@ def skip_trailing_comma(token_sequence):
         yield token
 
 
+def skip_complex_parens(token_sequence):
+    """Removes the parentheses around complex numbers.
+
+    (1+2j) -> 1+2j
+
+    repr() adds them, and formatters remove them in some cases `{(1+2j)}` -> `{1 + 2j}`
+    """
+    token_sequence = list(token_sequence)
+
+    def is_number(t, imaginary):
+        return t.type == token.NUMBER and (t.string[-1] in "jJ") == imaginary
+
+    index = 0
+    while index < len(token_sequence):
+        tokens = token_sequence[index : index + 6]
+        if len(tokens) >= 2 and tokens[0].string == "(" and tokens[1].string == "-":
+            # (-1+2j)
+            tokens = [tokens[0]] + token_sequence[index + 2 : index + 7]
+            sign = [token_sequence[index + 1]]
+        else:
+            sign = []
+
+        is_call = index > 0 and (
+            token_sequence[index - 1].type == token.NAME
+            or token_sequence[index - 1].string in (")", "]")
+        )
+
+        if (
+            len(tokens) >= 5
+            and not is_call
+            and tokens[0].string == "("
+            and is_number(tokens[1], False)
+            and tokens[2].string in ("+", "-")
+            and is_number(tokens[3], True)
+            and tokens[4].string == ")"
+        ):
+            yield from sign + tokens[1:4]
+            index += len(sign) + 5
+        else:
+            yield token_sequence[index]
+            index += 1
+
+
 def normalize(token_sequence):
-    return skip_trailing_comma(normalize_strings(token_sequence))
+    return skip_complex_parens(skip_trailing_comma(normalize_strings(token_sequence)))
 
 
 ignore_tokens = (token.NEWLINE, token.ENDMARKER, token.NL)
